@@ -5,11 +5,11 @@ cd $wt || exit 2
 git checkout -q -- src examples 2>/dev/null
 demo_build() {
   if [ -f deliver/demo.sh ]; then return 0; fi
-  gcc -w -I src -I src/generic deliver/demo.c src/adf_*.c src/debug_util.c src/generic/adf_nativ.c -o /tmp/seed_demo_$pid 2>/tmp/seed_demo_$pid.err || gcc -w -I src -I src/generic deliver/demo.c src/adf_*.c src/generic/adf_nativ.c -o /tmp/seed_demo_$pid 2>>/tmp/seed_demo_$pid.err
+  gcc -w -I src -I src/generic deliver/demo.c src/adf_*.c src/debug_util.c src/generic/adf_nativ.c -o /tmp/seedc_demo_$pid 2>/tmp/seedc_demo_$pid.err || gcc -w -I src -I src/generic deliver/demo.c src/adf_*.c src/generic/adf_nativ.c -o /tmp/seedc_demo_$pid 2>>/tmp/seedc_demo_$pid.err
 }
 demo_run() {
-  if [ -f deliver/demo.sh ]; then (bash deliver/demo.sh >/tmp/seed_demo_$pid.out 2>&1); return $?; fi
-  (cd $wt && /tmp/seed_demo_$pid >/tmp/seed_demo_$pid.out 2>&1); return $?
+  if [ -f deliver/demo.sh ]; then (bash deliver/demo.sh >/tmp/seedc_demo_$pid.out 2>&1); return $?; fi
+  (cd $wt && /tmp/seedc_demo_$pid >/tmp/seedc_demo_$pid.out 2>&1); return $?
 }
 demo_build; demo_run; clean_rc=$?
 git apply deliver/patch.diff || { echo "patch does not apply"; exit 2; }
@@ -17,4 +17,4 @@ cmake --build _build >/dev/null 2>&1; ctest --test-dir _build -j8 --timeout 900 
 demo_build; demo_run; bug_rc=$?
 git checkout -q -- src examples
 echo "$pid: demo on clean tree rc=$clean_rc ; with change: ctest rc=$ctest_rc demo rc=$bug_rc"
-rm -f /tmp/seed_demo_$pid
+rm -f /tmp/seedc_demo_$pid
